@@ -19,7 +19,9 @@ use std::sync::Arc;
 struct World {
     sks: Vec<SecretKey>,
     pks: Vec<PublicKey>,
-    /// pair alphabet: (key index or usize::MAX for infinity, message)
+    /// pair alphabet: (key index, or usize::MAX for the default infinity key, or usize::MAX - 1 for an
+    /// infinity key produced by arithmetic (pk + (-pk): same group element and encoding, other
+    /// internal coordinates), message)
     pairs: Vec<(usize, Vec<u8>)>,
     off_subgroup: Signature,
     /// signatures of the individual pairs (None for the infinity key) and the "extra" factor
@@ -36,6 +38,7 @@ fn world() -> World {
         (1, b"hello".to_vec()),
         (1, b"".to_vec()),
         (usize::MAX, b"hello".to_vec()),
+        (usize::MAX - 1, b"hello".to_vec()),
     ];
     // an on-curve G2 point outside the prime-order subgroup: scan compressed encodings
     let mut off = None;
@@ -50,7 +53,7 @@ fn world() -> World {
             }
         }
     }
-    let pair_sigs = pairs.iter().map(|p: &(usize, Vec<u8>)| if p.0 == usize::MAX { None } else { Some(sign(&sks[p.0], &p.1)) }).collect();
+    let pair_sigs = pairs.iter().map(|p: &(usize, Vec<u8>)| if p.0 >= usize::MAX - 1 { None } else { Some(sign(&sks[p.0], &p.1)) }).collect();
     let extra_sig = sign(&sks[2], b"extra");
     World {
         sks,
@@ -66,6 +69,10 @@ impl World {
     fn pk(&self, i: usize) -> PublicKey {
         if i == usize::MAX {
             PublicKey::default()
+        } else if i == usize::MAX - 1 {
+            let mut neg = self.pks[0].clone();
+            neg.negate();
+            &self.pks[0] + &neg
         } else {
             self.pks[i].clone()
         }
@@ -77,7 +84,7 @@ impl World {
         list.iter().map(|i| (self.pk(self.pairs[*i].0), self.pairs[*i].1.clone())).collect()
     }
     fn has_inf(&self, list: &[usize]) -> bool {
-        list.iter().any(|i| self.pairs[*i].0 == usize::MAX)
+        list.iter().any(|i| self.pairs[*i].0 >= usize::MAX - 1)
     }
 }
 
